@@ -7,12 +7,12 @@
      cfg_ok cfg              the addresses of the configuration are pairwise distinct
      run_ok guard_static     no controller changes its addresses after power-on
    and, for the symmetry of the tables,
-     run_ok guard_sym        additionally, no ConnectInd is refused or overwrites a
-                             connection at its addressee, connections are made and torn
-                             down one at a time per pair (see docs/C06.md; the excluded
-                             schedules are finding D06d and a modelling artefact of delays). *)
+     run_ok guard_sym        additionally, LE connections between two controllers are made
+                             and torn down one at a time (nothing in flight between them when
+                             one is created or disconnected) and the addressee of a ConnectInd
+                             has a free handle (see docs/C06.md). *)
 From Coq Require Import ZArith List Bool.
-From BV Require Import Model.Link Proofs.Link Proofs.LinkSym Gen.C06Handles Proofs.LinkHandles.
+From BV Require Import Model.Link Proofs.Link Proofs.LinkDyn Proofs.LinkSym Proofs.LinkSymCl Proofs.LinkSymCl2 Gen.C06Handles Proofs.LinkHandles Gen.C06Shape Proofs.LinkShape.
 Import ListNotations.
 Open Scope Z_scope.
 
@@ -25,6 +25,22 @@ Theorem C06_reachable_invariant : forall cfg ls, cfg_ok cfg = true ->
   run_ok guard_static (init cfg) ls = true -> ginv (run_state (init cfg) ls).
 Proof. exact reachable_ginv. Qed.
 Print Assumptions C06_reachable_invariant.
+
+(* The routing invariant [rinv] (per-controller table invariants, own addresses of LE connections
+   and public addresses unique across controllers) is all the routing theorems below need.  It
+   holds in every state reachable under the static hypotheses, and also under the weaker
+   [guard_fresh]: a controller may change its random address at any time, also while connected,
+   and advertising sets may have random addresses of their own, as long as no other controller
+   uses the new address.  Routing keeps working because it goes by the own address the connection
+   was made with, not by the controller's current address. *)
+Theorem C06_reachable_routing_invariant : forall cfg ls, cfg_ok cfg = true ->
+  run_ok guard_fresh (init cfg) ls = true -> rinv (run_state (init cfg) ls).
+Proof. exact reachable_rinv. Qed.
+Print Assumptions C06_reachable_routing_invariant.
+
+Theorem C06_static_invariant_gives_routing_invariant : forall s, ginv s -> rinv s.
+Proof. exact ginv_rinv. Qed.
+Print Assumptions C06_static_invariant_gives_routing_invariant.
 
 (* handle allocation: the smallest handle in 1..0xEFF not used by a live link of any kind;
    [handles c] ranges over the LE and BR/EDR connections, the SCO / eSCO links and the CIS
@@ -72,9 +88,8 @@ Print Assumptions C06_handles_distinct.
    ConnectInd / TerminateInd in flight between them: either neither holds an LE connection
    towards the other, or each holds exactly one, and they mirror each other: i's entry
    (peer b, own a, role r) faces j's entry (peer a, own b, role not r).
-   Partial: LE tables only (the BR/EDR tables have routing lemmas but no symmetry
-   invariant), and only for schedules satisfying guard_sym. *)
-Theorem C06_tables_symmetric_partial : forall cfg ls i j ci cj, cfg_ok cfg = true ->
+   (The BR/EDR tables: C06_tables_symmetric_classic below.) *)
+Theorem C06_tables_symmetric_le : forall cfg ls i j ci cj, cfg_ok cfg = true ->
   run_ok guard_sym (init cfg) ls = true ->
   let s := run_state (init cfg) ls in
   i <> j -> nth_error (st_cs s) i = Some ci -> nth_error (st_cs s) j = Some cj ->
@@ -82,7 +97,7 @@ Theorem C06_tables_symmetric_partial : forall cfg ls i j ci cj, cfg_ok cfg = tru
   (towards cj ci = [] /\ towards ci cj = []) \/
   (exists e e', towards cj ci = [e] /\ towards ci cj = [e'] /\ mirror e e').
 Proof. exact tables_symmetric. Qed.
-Print Assumptions C06_tables_symmetric_partial.
+Print Assumptions C06_tables_symmetric_le.
 
 (* ... and every LE connection is towards an address of some other controller, so the
    statement above covers every entry of every table *)
@@ -94,33 +109,99 @@ Theorem C06_every_connection_has_a_peer_controller : forall cfg ls i ci e, cfg_o
 Proof. exact peer_is_other_controller. Qed.
 Print Assumptions C06_every_connection_has_a_peer_controller.
 
-(* the guard is necessary: finding D06d in the model *)
+(* BR/EDR: in every state reachable under guard_cl (a connection is requested only between
+   controllers that have nothing BR/EDR going on, the host accepts waiting requests only,
+   established connections are torn down by one side at a time, a handle is left when a
+   connection completes), for two controllers with no LMP connection-management message in
+   flight between them: neither holds an entry for the other, or both hold an established one
+   (non-zero handles) in opposite roles, or a request is waiting for the host's accept (both
+   entries still carry handle 0). *)
+Theorem C06_tables_symmetric_classic : forall cfg ls i j ci cj, cfg_ok cfg = true ->
+  run_ok guard_cl (init cfg) ls = true ->
+  let s := run_state (init cfg) ls in
+  i <> j -> nth_error (st_cs s) i = Some ci -> nth_error (st_cs s) j = Some cj ->
+  cquiet s i j = true ->
+  (ent ci cj = None /\ ent cj ci = None)
+  \/ (exists k k', ent ci cj = Some k /\ ent cj ci = Some k' /\ k_handle k <> 0 /\ k_handle k' <> 0 /\
+        k_central k' = negb (k_central k))
+  \/ (exists k k', ent ci cj = Some k /\ ent cj ci = Some k' /\ k_handle k = 0 /\ k_handle k' = 0 /\
+        k_central k' = negb (k_central k)).
+Proof. exact classic_tables_symmetric. Qed.
+Print Assumptions C06_tables_symmetric_classic.
+
+Theorem C06_tables_symmetric_classic_guard_example :
+  let cfg := [(10, 11, false); (20, 21, false); (30, 31, false)] in
+  let ls := [LClConnect 0 20; LDeliver 0; LClAccept 1 10; LDeliver 0; LClConnect 2 20; LDeliver 0; LClAccept 1 30;
+             LDeliver 0; LDisconnect 1 1 19; LDeliver 0] in
+  cfg_ok cfg = true /\ run_ok guard_cl (init cfg) ls = true /\
+  map (fun c => map conn_obs (c_cl c)) (st_cs (run_state (init cfg) ls)) = [[]; [(30, 20, 2, false)]; [(20, 30, 1, true)]].
+Proof. exact classic_guard_example. Qed.
+Print Assumptions C06_tables_symmetric_classic_guard_example.
+
+Theorem C06_tables_symmetric_classic_refuted_without_guard : exists cfg ls,
+  cfg_ok cfg = true /\ run_ok guard_static (init cfg) ls = true /\ run_ok guard_cl (init cfg) ls = false /\
+  let s := run_state (init cfg) ls in
+  cquiet s 0 1 = true /\
+  match nth_error (st_cs s) 0, nth_error (st_cs s) 1 with
+  | Some c0, Some c1 =>
+      match tbl_get (c_cl c0) (c_public c1), tbl_get (c_cl c1) (c_public c0) with
+      | Some k, Some k' => andb (negb (k_handle k =? 0)) (Bool.eqb (k_central k) (k_central k'))
+      | _, _ => false
+      end
+  | _, _ => false
+  end = true.
+Proof. exact classic_tables_symmetric_refuted_without_guard. Qed.
+Print Assumptions C06_tables_symmetric_classic_refuted_without_guard.
+
+(* the guard is necessary: simultaneous connections in both directions between two controllers
+   that use their advertised address as own address overwrite each other (tables are keyed by
+   peer address only) *)
 Theorem C06_tables_symmetric_refuted_without_guard : exists cfg ls,
   cfg_ok cfg = true /\ run_ok guard_static (init cfg) ls = true /\ run_ok guard_sym (init cfg) ls = false /\
   let s := run_state (init cfg) ls in
-  pair_quiet s 1 2 = true /\
-  match nth_error (st_cs s) 1, nth_error (st_cs s) 2 with
-  | Some c1, Some c2 => andb (negb (nil_b (towards c2 c1))) (nil_b (towards c1 c2))
+  pair_quiet s 0 1 = true /\
+  match nth_error (st_cs s) 0, nth_error (st_cs s) 1 with
+  | Some c0, Some c1 =>
+      match towards c1 c0, towards c0 c1 with
+      | [e], [e'] => Bool.eqb (k_central e) (k_central e')
+      | _, _ => false
+      end
   | _, _ => false
   end = true.
 Proof. exact tables_symmetric_refuted_without_guard. Qed.
 Print Assumptions C06_tables_symmetric_refuted_without_guard.
 
+(* D06d (two centrals, one advertiser) lies inside the guard since D06d.patch: the loser is
+   refused with a TerminateInd 0x3E, reports the disconnection, and the tables are symmetric *)
+Theorem C06_race_for_one_advertiser_is_symmetric :
+  let cfg := [(10, 11, false); (20, 21, false); (30, 31, false)] in
+  let ls := [LConnect 0 31 false; LConnect 1 31 false; LAdvParams 2 false true; LAdvEnable 2 true; LTick 2;
+             LDeliver 0; LDeliver 0; LDeliver 0; LDeliver 0; LDeliver 0; LDeliver 0; LDeliver 0] in
+  cfg_ok cfg = true /\ run_ok guard_sym (init cfg) ls = true /\
+  let '(s, tr) := run (init cfg) ls in
+  st_net s = [] /\ map (fun c => map conn_obs (c_le c)) (st_cs s) = [[(31, 11, 1, true)]; []; [(11, 31, 1, false)]] /\
+  In [(1%nat, EDisc 1 62)] (map fst tr).
+Proof. exact race_is_symmetric. Qed.
+Print Assumptions C06_race_for_one_advertiser_is_symmetric.
+
 (* ---------------------------------------------------------------- connect reaches the target only *)
-Theorem C06_connect_reaches_target_only : forall n j c a b c' e o, ainv c ->
-  on_message n j c (MConnInd a b) = (c', e, o) ->
-  o = [] /\
-  (~ owns c b -> c' = c /\ e = []) /\
+(* a ConnectInd(a, b) is ignored by every controller that does not own b; the owner either files
+   the connection (peer a, own b, fresh handle, peripheral) or, when it no longer advertises b,
+   changes nothing and answers the initiator with a TerminateInd 0x3E (D06d) *)
+Theorem C06_connect_reaches_target_only : forall cs n j c a b c' e o, ainv c ->
+  on_message cs n j c (MConnInd a b) = (c', e, o) ->
+  (~ owns c b -> c' = c /\ e = [] /\ o = []) /\
   (forall h ce p, In (ELeConn h ce p) e ->
-     ce = false /\ p = a /\ owns c b /\ alloc c = Some h /\
-     tbl_get (c_le c') a = Some (mkConn a b h false)).
+     ce = false /\ p = a /\ owns c b /\ alloc c = Some h /\ o = [] /\
+     tbl_get (c_le c') a = Some (mkConn a b h false)) /\
+  (o = [] \/ (c' = c /\ e = [] /\ owns c b /\ exists i, find_le cs a = Some i /\ o = [(j, i, MTerm b 62)])).
 Proof. exact connect_ind_effect. Qed.
 Print Assumptions C06_connect_reaches_target_only.
 
 (* the initiator reports exactly the connection its host asked for, and scanners are given
    the advertising data and (active scanning) the scan-response data byte for byte *)
-Theorem C06_scan_reports_exact_and_connect_handed : forall n i c b data srsp c' e o,
-  on_message n i c (MAdv b data srsp) = (c', e, o) ->
+Theorem C06_scan_reports_exact_and_connect_handed : forall cs n i c b data srsp c' e o,
+  on_message cs n i c (MAdv b data srsp) = (c', e, o) ->
   filter is_report e =
     (if c_scan c then EAdvReport (c_extrep c) false b data ::
                       (if c_active c then [EAdvReport (c_extrep c) true b srsp] else []) else []) /\
@@ -150,14 +231,49 @@ Theorem C06_broadcast : forall n i m,
 Proof. intros n i m. exact (conj (broadcast_nodup n i m) (broadcast_spec n i m)). Qed.
 Print Assumptions C06_broadcast.
 
+(* ---------------------------------------------------------------- a caller is handed that connection and no other *)
+(* [completes_le] / [completes_classic] are the matching rules of Device.connect_le and
+   Device.connect_classic (tied to bumble/device.py by C06_shape_matches_source).  Whatever
+   event completes a pending LE connect() is the central connection to the address asked for
+   (reported only while that connection is pending in the controller, filed under that address,
+   and it clears the pending state so nothing else can complete the call); an incoming connection
+   accepted meanwhile never matches (D06c). *)
+Theorem C06_connect_le_handed_that_connection : forall s l s' evs out i e, step s l = (s', evs, out) ->
+  In (i, e) evs -> completes_le e = true ->
+  exists h t own c c', e = ELeConn h true t /\
+    nth_error (st_cs s) i = Some c /\ c_pending c = Some (t, own) /\
+    nth_error (st_cs s') i = Some c' /\ c_pending c' = None /\
+    tbl_get (c_le c') t = Some (mkConn t (if own then c_public c else c_random c) h true).
+Proof. exact connect_le_handed. Qed.
+Print Assumptions C06_connect_le_handed_that_connection.
+
+Theorem C06_incoming_connection_never_completes_connect : forall h p, completes_le (ELeConn h false p) = false.
+Proof. exact completes_le_not_peripheral. Qed.
+Print Assumptions C06_incoming_connection_never_completes_connect.
+
+Theorem C06_connect_classic_handed_that_connection : forall s l s' evs out i e t, step s l = (s', evs, out) ->
+  In (i, e) evs -> completes_classic t e = true ->
+  exists h c' k, e = EClConn h t /\ nth_error (st_cs s') i = Some c' /\
+    tbl_get (c_cl c') t = Some k /\ k_handle k = h.
+Proof. exact connect_classic_handed. Qed.
+Print Assumptions C06_connect_classic_handed_that_connection.
+
+(* regenerated from the source on every run: the shape (comparisons, tests, table stores and
+   deletes, calls in order, constructor arguments, returns) of every anchored function of
+   link.py / controller.py and of the two matching rules of device.py is the one the model was
+   written from *)
+Theorem C06_shape_matches_source : shape_diff code_shape model_shape = [].
+Proof. exact shape_matches_source. Qed.
+Print Assumptions C06_shape_matches_source.
+
 (* ---------------------------------------------------------------- ACL data *)
-Theorem C06_acl_le_sent_to_peer_only : forall s i j ci cj e e' d, ginv s ->
+Theorem C06_acl_le_sent_to_peer_only : forall s i j ci cj e e' d, rinv s ->
   nth_error (st_cs s) i = Some ci -> In e (c_le ci) ->
   nth_error (st_cs s) j = Some cj -> In e' (c_le cj) -> k_self e' = k_peer e ->
   step s (LAcl i (k_handle e) d) =
     (mkState (st_cs s) (st_net s ++ [(i, j, MAcl (k_self e) true d)]),
      [(i, ECompleted (k_handle e))], [(i, j, MAcl (k_self e) true d)]).
-Proof. exact acl_le_send. Qed.
+Proof. exact acl_le_send_r. Qed.
 Print Assumptions C06_acl_le_sent_to_peer_only.
 
 Theorem C06_acl_le_delivered : forall s k i j cj a d e', nth_error (st_net s) k = Some (i, j, MAcl a true d) ->
@@ -167,13 +283,13 @@ Theorem C06_acl_le_delivered : forall s k i j cj a d e', nth_error (st_net s) k 
 Proof. exact acl_le_deliver. Qed.
 Print Assumptions C06_acl_le_delivered.
 
-Theorem C06_acl_classic_sent_to_peer_only : forall s i j ci cj e d, ginv s ->
+Theorem C06_acl_classic_sent_to_peer_only : forall s i j ci cj e d, rinv s ->
   nth_error (st_cs s) i = Some ci -> In e (c_cl ci) -> k_handle e <> 0 ->
   nth_error (st_cs s) j = Some cj -> c_public cj = k_peer e ->
   step s (LAcl i (k_handle e) d) =
     (mkState (st_cs s) (st_net s ++ [(i, j, MAcl (c_public ci) false d)]),
      [(i, ECompleted (k_handle e))], [(i, j, MAcl (c_public ci) false d)]).
-Proof. exact acl_classic_send. Qed.
+Proof. exact acl_classic_send_r. Qed.
 Print Assumptions C06_acl_classic_sent_to_peer_only.
 
 Theorem C06_acl_classic_delivered : forall s k i j cj a d e', nth_error (st_net s) k = Some (i, j, MAcl a false d) ->
@@ -199,14 +315,14 @@ Proof. exact link_fifo_run. Qed.
 Print Assumptions C06_link_once_in_order.
 
 (* ---------------------------------------------------------------- disconnection seen by both *)
-Theorem C06_disconnect_le_local_and_sent : forall s i j ci cj e e' r, ginv s ->
+Theorem C06_disconnect_le_local_and_sent : forall s i j ci cj e e' r, rinv s ->
   nth_error (st_cs s) i = Some ci -> In e (c_le ci) ->
   nth_error (st_cs s) j = Some cj -> In e' (c_le cj) -> k_self e' = k_peer e ->
   step s (LDisconnect i (k_handle e) r) =
     (mkState (upd (st_cs s) i (set_le ci (tbl_del (c_le ci) (k_peer e))))
              (st_net s ++ [(i, j, MTerm (k_self e) r)]),
      [(i, EStatus 0); (i, EDisc (k_handle e) r)], [(i, j, MTerm (k_self e) r)]).
-Proof. exact disconnect_le. Qed.
+Proof. exact disconnect_le_r. Qed.
 Print Assumptions C06_disconnect_le_local_and_sent.
 
 Theorem C06_disconnect_le_remote : forall s k i j cj a r e', nth_error (st_net s) k = Some (i, j, MTerm a r) ->
@@ -218,14 +334,14 @@ Theorem C06_disconnect_le_remote : forall s k i j cj a r e', nth_error (st_net s
 Proof. exact terminate_deliver. Qed.
 Print Assumptions C06_disconnect_le_remote.
 
-Theorem C06_disconnect_classic_local_and_sent : forall s i j ci cj e r, ginv s ->
+Theorem C06_disconnect_classic_local_and_sent : forall s i j ci cj e r, rinv s ->
   nth_error (st_cs s) i = Some ci -> In e (c_cl ci) -> k_handle e <> 0 ->
   nth_error (st_cs s) j = Some cj -> c_public cj = k_peer e ->
   step s (LDisconnect i (k_handle e) r) =
     (mkState (upd (st_cs s) i (set_cl ci (tbl_del (c_cl ci) (k_peer e))))
              (st_net s ++ [(i, j, MLmpDetach (c_public ci) r)]),
      [(i, EStatus 0); (i, EDisc (k_handle e) r)], [(i, j, MLmpDetach (c_public ci) r)]).
-Proof. exact disconnect_classic. Qed.
+Proof. exact disconnect_classic_r. Qed.
 Print Assumptions C06_disconnect_classic_local_and_sent.
 
 Theorem C06_disconnect_classic_remote : forall s k i j cj a r e', nth_error (st_net s) k = Some (i, j, MLmpDetach a r) ->
@@ -239,14 +355,14 @@ Print Assumptions C06_disconnect_classic_remote.
 
 (* SCO / eSCO: a Disconnect on the handle of a synchronous link concludes that link and no
    other (the new state differs from the old one in sco_links of controller i only) *)
-Theorem C06_disconnect_sco_local_and_sent : forall s i j ci cj e r, ginv s ->
+Theorem C06_disconnect_sco_local_and_sent : forall s i j ci cj e r, rinv s ->
   nth_error (st_cs s) i = Some ci -> In e (c_sco ci) -> k_handle e <> 0 ->
   nth_error (st_cs s) j = Some cj -> c_public cj = k_peer e ->
   step s (LDisconnect i (k_handle e) r) =
     (mkState (upd (st_cs s) i (set_sco ci (tbl_del (c_sco ci) (k_peer e))))
              (st_net s ++ [(i, j, MLmpRemoveSco (c_public ci) r)]),
      [(i, EStatus 0); (i, EDisc (k_handle e) r)], [(i, j, MLmpRemoveSco (c_public ci) r)]).
-Proof. exact disconnect_sco. Qed.
+Proof. exact disconnect_sco_r. Qed.
 Print Assumptions C06_disconnect_sco_local_and_sent.
 
 Theorem C06_disconnect_sco_remote : forall s k i j cj a r e', nth_error (st_net s) k = Some (i, j, MLmpRemoveSco a r) ->
@@ -312,4 +428,19 @@ Example C06_nonvacuous_all_link_kinds :
     [[(0%nat, ECig [3; 4])]; [(0%nat, EStatus 0)]; [(2%nat, EClReq 10)]; [(2%nat, EStatus 0); (2%nat, EClConn 1 10)];
      [(0%nat, EClConn 5 30)]; [(0%nat, EStatus 0); (0%nat, EDisc 2 19)]; [(1%nat, EDisc 2 19)]] /\
   map handles (st_cs s) = [[1; 5; 3; 4]; [1]; [1]].
+Proof. vm_compute. repeat split. Qed.
+
+(* address change while connected: controller 0 connects with its random address 11, then takes the
+   new random address 12; data still flows both ways and the disconnect still reaches the peer *)
+Example C06_nonvacuous_address_change :
+  let cfg := [(10, 11, false); (20, 21, false)] in
+  let ls := [LAdvParams 1 false true; LAdvEnable 1 true; LConnect 0 21 false; LTick 1; LDeliver 0; LDeliver 0;
+             LSetRandom 0 12;
+             LAcl 0 1 [1; 2]; LAcl 1 1 [3]; LDeliver 0; LDeliver 0; LDisconnect 1 1 19; LDeliver 0] in
+  cfg_ok cfg = true /\ run_ok guard_fresh (init cfg) ls = true /\ run_ok guard_static (init cfg) ls = false /\
+  let '(s, tr) := run (init cfg) ls in
+  map fst (skipn 7 tr) =
+    [[(0%nat, ECompleted 1)]; [(1%nat, ECompleted 1)]; [(1%nat, EAcl 1 [1; 2])]; [(0%nat, EAcl 1 [3])];
+     [(1%nat, EStatus 0); (1%nat, EDisc 1 19)]; [(0%nat, EDisc 1 19)]] /\
+  st_net s = [] /\ map c_le (st_cs s) = [[]; []].
 Proof. vm_compute. repeat split. Qed.
